@@ -213,8 +213,12 @@ pub fn gen_history(rng: &mut Rng, prog: &Program, p: &GenParams) -> Vec<Op> {
         inputs: ins.iter().map(|n| (*n, vec![], vec![])).collect(),
     };
     let mut ops = Vec::new();
+    // (current, previous) value of the world behind every external input
+    let mut world: std::collections::BTreeMap<u32, (Val, Val)> = std::collections::BTreeMap::new();
     for e in &exs {
-        ops.push(Op::SetWorld { node: *e, val: small_val(rng) });
+        let v = small_val(rng);
+        world.insert(*e, (v.clone(), v.clone()));
+        ops.push(Op::SetWorld { node: *e, val: v });
     }
     ops.push(gen_session(rng, prog, &mut st, true));
     let n_ops = rng.range(3, u64::from(p.max_ops));
@@ -227,7 +231,40 @@ pub fn gen_history(rng: &mut Rng, prog: &Program, p: &GenParams) -> Vec<Op> {
         match rng.below(20) {
             0..=6 => ops.push(gen_session(rng, prog, &mut st, false)),
             7 if !exs.is_empty() => {
-                ops.push(Op::SetWorld { node: *rng.pick(&exs), val: small_val(rng) });
+                let e = *rng.pick(&exs);
+                let w = world.get_mut(&e).unwrap();
+                // the world changes, sometimes back to what it was before
+                let v = if rng.chance(1, 3) { w.1.clone() } else { small_val(rng) };
+                if v != w.0 {
+                    *w = (v.clone(), w.0.clone());
+                }
+                ops.push(Op::SetWorld { node: e, val: v });
+                if rng.chance(1, 2) {
+                    ops.push(Op::Session { steps: vec![SessStep::Refresh], commit: true });
+                }
+            }
+            9 if !exs.is_empty() => {
+                // round trip of an external input over two refresh sessions
+                // (added after seeded change C03-1): the world changes and is
+                // refreshed, changes back and is refreshed again, usually with
+                // no request in between, so every reader of the external input
+                // finds a dirty edge whose callee has the value it had seen
+                let e = *rng.pick(&exs);
+                let w = world.get_mut(&e).unwrap();
+                let orig = w.0.clone();
+                let mut other = small_val(rng);
+                if other == orig {
+                    other.push(1);
+                }
+                ops.push(Op::SetWorld { node: e, val: other.clone() });
+                ops.push(Op::Session { steps: vec![SessStep::Refresh], commit: true });
+                if rng.chance(1, 4) {
+                    ops.push(Op::Query { root: pick_root(rng), new_tracked: true });
+                }
+                ops.push(Op::SetWorld { node: e, val: orig.clone() });
+                ops.push(Op::Session { steps: vec![SessStep::Refresh], commit: true });
+                *w = (orig, other);
+                ops.push(Op::Query { root: pick_root(rng), new_tracked: true });
             }
             8 => ops.push(Op::RepairTfc { root: pick_root(rng) }),
             _ => ops.push(Op::Query { root: pick_root(rng), new_tracked: rng.chance(1, 3) }),
